@@ -91,7 +91,7 @@ structure Setup where
 
 def Setup.inst (s : Setup) (i : Nat) : Inst := (s.insts[i]?).getD (s.insts.headD ⟨none, 0⟩)
 def Setup.cfg (s : Setup) (i : Nat) : Option Int := effective s.proto (s.inst i).ovr
-def Setup.policy (s : Setup) (i : Nat) : Policy (Option Int) := mechPolicy s.mech (s.cfg i) (s.inst i).vl
+def Setup.policy (s : Setup) (i : Nat) : Policy Answer := mechPolicy s.mech (s.cfg i) (s.inst i).vl
 
 def instOf (c : Json) : Inst :=
   let ovr := match c.getObjVal? "ovr" with
@@ -113,14 +113,16 @@ def setupOf (c : Json) : E Setup := do
 def stepInsts (c : Json) : List Nat := (arrD c "steps").map (fun st => natD st "inst" 0)
 
 /-- requests of a mechanism case, expiry made absolute -/
-def mechReqs (c : Json) : E (List (Req (Option Int))) := do
+def mechReqs (c : Json) : E (List (Req Answer)) := do
   let steps ← arr c "steps"
   let mut now : Int := 0
-  let mut out : List (Req (Option Int)) := []
+  let mut out : List (Req Answer) := []
   for st in steps do
     let dt ← nat st "dt"
     now := now + dt
-    out := out ++ [⟨dt, ← nat st "key", (optInt st "exp").map (· + now)⟩]
+    let t := now
+    let more := (arrD st "chain").filterMap (fun j => (j.getInt?).toOption.map (· + t))
+    out := out ++ [⟨dt, ← nat st "key", ⟨(optInt st "exp").map (· + now), more⟩⟩]
   return out
 
 def methodOf (s : String) : Method :=
@@ -206,11 +208,20 @@ def runMech (c : Json) : E Json := do
   let os := runMixed su.kind [] 0 0 ((which.zip reqs).map (fun (i, r) => (su.policy i, r)))
   let remote := su.mech != .jwtFinalizer
   let times := os.map (·.1)
-  let classes := (reqs.zip times).map (fun (r, t) => remClass su.mech.leeway (r.up.map (· - t)))
+  let classes := (reqs.zip times).map (fun (r, t) => remClass su.mech.leeway (r.up.exp.map (· - t)))
+  let chains := (reqs.zip times).map (fun (r, t) =>
+    match r.up.exp, r.up.more with
+    | some e, c :: cs =>
+      let lo := (c :: cs).foldl min c
+      let hi := (c :: cs).foldl max c
+      s!"len{cs.length + 2}:" ++ (if hi < e then "cas_expire_before_own" else if e < lo then "cas_outlive_own" else "mixed")
+        ++ (if lo ≤ t then ":expired_ca" else "")
+    | some _, [] => "len1"
+    | none, _ => "no_certificate")
   let outs := ((os.zip which).zipIdx).map (fun ((to, w), i) => outcomeJson (su.policy w).lookup remote i to.2)
   return Json.mkObj [("res", jarr outs),
-    ("stats", Json.mkObj [("outcomes", countOutcomes os), ("rem", jstrs classes),
-      ("instances", jnat su.insts.length)])]
+    ("stats", Json.mkObj ([("outcomes", countOutcomes os), ("rem", jstrs classes),
+      ("instances", jnat su.insts.length)] ++ (if su.mech == .jwtKey then [("chains", jstrs chains)] else [])))]
 
 def runHttp (c : Json) : E Json := do
   let reqs ← httpReqs c
